@@ -14,6 +14,9 @@ OBLIGATIONS = [
     SX("sx_rdkit", "sx_c18", "ob_rdkit", cls="E", quick=300, parts=1,
        functions=["src/biotite/interface/rdkit/mol.py:to_mol/from_mol"],
        bounds="molecules of 1..3 atoms, single/double/triple/quadruple bonds, charges, 1..3 models (conformers) through RDKit and back"),
+    SX("sx_key_parts", "sx_c18", "ob_key_parts", cls="E", quick=100, parts=1,
+       functions=["src/biotite/structure/io/mol/sdf.py:Metadata.Key.__post_init__/serialize/deserialize", "src/biotite/structure/io/mol/sdf.py:Metadata.serialize/deserialize"],
+       bounds="all 256 combinations of field number {absent, 0, 1, 12} x name {absent, 3 names} x internal registry {absent, 0, 7, 123} x external registry {absent, '', 2 values}: an admitted key serialises to text that parses back to an equal key, alone and inside a metadata block"),
 ]
 EXPLANATION = "C18: small molecules survive MOL/SDF files and the RDKit bridge."
 ASSUMPTIONS = ["RDKit's C++ is a black box: only the bridge's bookkeeping (atom order, charges, bond-type table, conformers <-> models) is exercised"]
